@@ -9,17 +9,17 @@ def leU32' (n : Nat) : Bytes := (toBE 4 n).reverse
     `peppi.json` decodes to the version verdict, hash and quirks that were written; `metadata.json` to the tree or `null`;
     `start.json` / `end.json` are names the reader does not dispatch on; raw entries are bytes; `frames.arrow`, present only
     when there are frames, decodes to exactly one chunk holding the frames -/
-def endEntries {χ : Type} : Option Bytes → List (PEntry χ)
+def endEntries {μ φ : Type} : Option Bytes → List (PEntry μ φ)
   | some eb => [.other, .endRaw eb]
   | none => []
-def geckoEntries {χ : Type} : Option (Bytes × Nat) → List (PEntry χ)
+def geckoEntries {μ φ : Type} : Option (Bytes × Nat) → List (PEntry μ φ)
   | some c => [.geckoRaw (leU32' c.2 ++ c.1)]
   | none => []
-def framesEntries {χ : Type} : Option χ → List (PEntry χ)
+def framesEntries {μ φ : Type} : Option φ → List (PEntry μ φ)
   | some f => [.framesArrow true [.chunk f]]
   | none => []
 
-def writtenEntries {χ : Type} (g : PGame χ) (startBytes : Bytes) (endBytes : Option Bytes) : List (PEntry χ) :=
+def writtenEntries {μ φ : Type} (g : PGame μ φ) (startBytes : Bytes) (endBytes : Option Bytes) : List (PEntry μ φ) :=
   [.peppiJson (.ok ⟨true, g.hash, g.quirks⟩), .metadataJson (.ok g.metadata), .other, .startRaw startBytes] ++
   (endEntries endBytes ++ (geckoEntries g.gecko ++ framesEntries g.frames))
 
@@ -34,7 +34,7 @@ theorem le_roundtrip (n : Nat) (h : n < 2 ^ 32) (rest : Bytes) :
 /-- **`.slpp` round trip, archive level**: reading what was written returns the game — start, end, metadata, Gecko codes,
     frames, hash and quirks — provided the start / end blocks are the ones the game was parsed from, the Gecko size fits a
     `u32`, and (for a game without frames) the archive is complete -/
-theorem peppiRead_written {χ : Type} (T : TextOracle) (g : PGame χ) (startBytes : Bytes) (endBytes : Option Bytes) (trailerOk : Bool)
+theorem peppiRead_written {μ φ : Type} (T : TextOracle) (g : PGame μ φ) (startBytes : Bytes) (endBytes : Option Bytes) (trailerOk : Bool)
     (hstart : gameStart T startBytes = .ok g.start)
     (hend : endBytes.map gameEnd = g.fend.map Res.ok)
     (hgecko : ∀ c, g.gecko = some c → c.2 < 2 ^ 32)
@@ -43,7 +43,7 @@ theorem peppiRead_written {χ : Type} (T : TextOracle) (g : PGame χ) (startByte
   unfold peppiRead writtenEntries
   simp only [List.cons_append, List.nil_append, peppiLoop, ↓reduceIte, hstart]
   -- end
-  have hendStep : ∀ (acc : PAcc χ) (rest : List (PEntry χ)),
+  have hendStep : ∀ (acc : PAcc μ) (rest : List (PEntry μ φ)),
       peppiLoop T false trailerOk acc (endEntries endBytes ++ rest) =
         peppiLoop T false trailerOk { acc with fend := match g.fend with | some e => some e | none => acc.fend } rest := by
     intro acc rest
@@ -61,7 +61,7 @@ theorem peppiRead_written {χ : Type} (T : TextOracle) (g : PGame χ) (startByte
         simp only [endEntries, List.cons_append, List.nil_append, peppiLoop, hend]
   rw [hendStep]
   -- gecko
-  have hgStep : ∀ (acc : PAcc χ) (rest : List (PEntry χ)),
+  have hgStep : ∀ (acc : PAcc μ) (rest : List (PEntry μ φ)),
       peppiLoop T false trailerOk acc (geckoEntries g.gecko ++ rest) =
         peppiLoop T false trailerOk { acc with gecko := match g.gecko with | some c => some c | none => acc.gecko } rest := by
     intro acc rest
@@ -85,7 +85,7 @@ theorem peppiRead_written {χ : Type} (T : TextOracle) (g : PGame χ) (startByte
 
 /-- **C10 (`.slpp`, archive level)**: with skip-frames the same start, end, metadata, Gecko codes, hash and quirks, and the
     empty frame set -/
-theorem peppiRead_written_skip {χ : Type} (T : TextOracle) (g : PGame χ) (startBytes : Bytes) (endBytes : Option Bytes) (trailerOk : Bool)
+theorem peppiRead_written_skip {μ φ : Type} (T : TextOracle) (g : PGame μ φ) (startBytes : Bytes) (endBytes : Option Bytes) (trailerOk : Bool)
     (hstart : gameStart T startBytes = .ok g.start)
     (hend : endBytes.map gameEnd = g.fend.map Res.ok)
     (hgecko : ∀ c, g.gecko = some c → c.2 < 2 ^ 32)
@@ -94,7 +94,7 @@ theorem peppiRead_written_skip {χ : Type} (T : TextOracle) (g : PGame χ) (star
   unfold peppiRead writtenEntries
   simp only [List.cons_append, List.nil_append, peppiLoop, ↓reduceIte, hstart]
   -- end
-  have hendStep : ∀ (acc : PAcc χ) (rest : List (PEntry χ)),
+  have hendStep : ∀ (acc : PAcc μ) (rest : List (PEntry μ φ)),
       peppiLoop T true trailerOk acc (endEntries endBytes ++ rest) =
         peppiLoop T true trailerOk { acc with fend := match g.fend with | some e => some e | none => acc.fend } rest := by
     intro acc rest
@@ -112,7 +112,7 @@ theorem peppiRead_written_skip {χ : Type} (T : TextOracle) (g : PGame χ) (star
         simp only [endEntries, List.cons_append, List.nil_append, peppiLoop, hend]
   rw [hendStep]
   -- gecko
-  have hgStep : ∀ (acc : PAcc χ) (rest : List (PEntry χ)),
+  have hgStep : ∀ (acc : PAcc μ) (rest : List (PEntry μ φ)),
       peppiLoop T true trailerOk acc (geckoEntries g.gecko ++ rest) =
         peppiLoop T true trailerOk { acc with gecko := match g.gecko with | some c => some c | none => acc.gecko } rest := by
     intro acc rest
